@@ -79,7 +79,7 @@ PROPS = {
     },
     "C05": {
         "modules": ["PgBifrost.Props.C05"],
-        "components": ["batcher", "crc", "pipeline", "kinesis", "batcherload"],
+        "components": ["batcher", "crc", "pipeline", "kinesis", "batcherload", "plumbing"],
         "required_theorems": ["PgBifrost.Props.C05.routing_switch_as_in_source", "PgBifrost.Props.C05.kinesis_calls_keep_batch_order", "PgBifrost.Props.C05.in_batch_order", "PgBifrost.Props.C05.partition_routing_fixed",
                               "PgBifrost.Props.C05.per_key_submission_order", "PgBifrost.Props.C05.single_worker_total_order"],
         "partial": "proved up to the worker's input channel (order of batches handed to worker w); that a worker is sequential and its "
@@ -87,7 +87,7 @@ PROPS = {
     },
     "C06": {
         "modules": ["PgBifrost.Props.C06"],
-        "components": ["partitioner", "crc", "batcher"],
+        "components": ["partitioner", "crc", "batcher", "plumbing"],
         "required_theorems": ["PgBifrost.Props.C06.partition_switch_as_in_source", "PgBifrost.Props.C06.kinesis_factory_as_modelled",
                               "PgBifrost.Props.C06.bucket_in_range", "PgBifrost.Props.C06.kinesis_key_choice"],
         "assumptions": ["identifiers are byte strings; bucket count >= 1 (validated by main.go)"],
@@ -102,7 +102,7 @@ PROPS = {
     },
     "C08": {
         "modules": ["PgBifrost.Props.C08"],
-        "components": ["filter", "clifilter", "e2e"],
+        "components": ["filter", "clifilter", "e2e", "plumbing"],
         "required_theorems": ["PgBifrost.Props.C08.filter_iff", "PgBifrost.Props.C08.cli_filter_correct", "PgBifrost.Props.C08.filter_as_in_source"],
         "assumptions": ["regexp matching is Go's regexp (parameter of the model)", "at most one of the four options is given",
                         "a TRUNCATE of several tables is filtered on the relation text as test_decoding prints it (the whole list)"],
@@ -120,7 +120,7 @@ PROPS = {
     },
     "C10": {
         "modules": ["PgBifrost.Props.C10"],
-        "components": ["marshal"],
+        "components": ["marshal", "plumbing"],
         "required_theorems": ["PgBifrost.Props.C10.marshal_decision_table_partial", "PgBifrost.Props.C10.marshal_quoted_toast_witness",
                               "PgBifrost.Props.C10.marshal_fields_equal", "PgBifrost.Props.C10.lsn_format_roundtrip",
                               "PgBifrost.Props.C10.marshal_history_independent", "PgBifrost.Props.C10.marshal_pool_independent",
@@ -175,7 +175,7 @@ PROPS = {
     },
     "C15": {
         "modules": ["PgBifrost.Props.C15"],
-        "components": ["batch", "batcher"],
+        "components": ["batch", "batcher", "plumbing"],
         "required_theorems": ["PgBifrost.Props.C15.kinesis_batch_limits", "PgBifrost.Props.C15.kinesis_dispatched_limits",
                               "PgBifrost.Props.C15.generic_dispatched_limits", "PgBifrost.Props.C15.kafka_dispatched_limits",
                               "PgBifrost.Props.C15.cant_fit_not_lost", "PgBifrost.Props.C15.too_big_counted",
@@ -186,7 +186,7 @@ PROPS = {
     },
     "C16": {
         "modules": ["PgBifrost.Props.C16"],
-        "components": ["batcher", "batch", "batcherload"],
+        "components": ["batcher", "batch", "batcherload", "plumbing"],
         "required_theorems": ["PgBifrost.Props.C16.tick_flushes_due", "PgBifrost.Props.C16.tick_pressure",
                               "PgBifrost.Props.C16.tick_pressure_order", "PgBifrost.Props.C16.age_invariant",
                               "PgBifrost.Props.C16.age_bound"],
